@@ -16,6 +16,7 @@ IR (all JSON-able)
          | ["ifexp", c, a, b] | ["tmpsl", name, lo, hi]
   stmt   = ["assign", ref, e] | ["assign_bit", ref, idx_expr, e] | ["tmp", name, e]
          | ["if", cond, then_stmts, else_stmts] | ["for", var, start, stop, step, body]
+         | ["call", fname]            (helper function of the class: {"funcs": [{"name", "stmts"}]}, inlined)
          | ["assign_struct", ref, tname_type, [e per field]]
 Values are (width, int).  "lit" and "lv" have width None (a Python int) and are only legal where
 Bits accepts an int operand.
@@ -274,13 +275,22 @@ class Model:
         for i in range(s[2], s[3], s[4]):
           env["lv"][s[1]] = i
           self.run_stmts(ip, s[5], env, rd, wr)
+      elif k == "call":
+        # a helper function has its own local names; it reads and writes the component's signals
+        self.run_stmts(ip, self.func_stmts(ip, s[1]), {"tmp": {}, "lv": {}}, rd, wr)
       else:
         raise IRError(f"unknown stmt {k}")
+
+  def func_stmts(self, ip, fname):
+    for f in self.classes[self.insts[ip]].get("funcs", []):
+      if f["name"] == fname: return f["stmts"]
+    raise IRError(f"unknown function {fname}")
 
   def _written_keys(self, ip, stmts):
     out = set()
     for s in stmts:
       if s[0] in ("assign", "assign_bit", "assign_struct"): out.add(self.key_of(ip, s[1]))
+      elif s[0] == "call": out |= self._written_keys(ip, self.func_stmts(ip, s[1]))
       elif s[0] == "if": out |= self._written_keys(ip, s[2]) | self._written_keys(ip, s[3])
       elif s[0] == "for": out |= self._written_keys(ip, s[5])
     return out
@@ -456,6 +466,7 @@ def static_rw(m, ip, stmts):
       elif k == "tmp": ex(s[2])
       elif k == "if": ex(s[1]); st(s[2]); st(s[3])
       elif k == "for": st(s[5])
+      elif k == "call": st(m.func_stmts(ip, s[1]))
       else: raise IRError(k)
   st(stmts)
   return reads, writes
